@@ -7,6 +7,7 @@
      rc <N> <K> <M> <mode> <L> <seed>    N workers x K get/put on M shared nodes;
                                           mode = join | race | hand ; L extra references kept by main
      seed <N> <R> <keyhex>               N threads race on the first use of the key hash, R later uses each
+     seedx <N> <R> <keyhex> <draws>      the same with the first results of the random source scripted
      trees <N> <size> <seed>             N threads on disjoint trees
    Observation: "<kind> k=v ... volrd ?"  (volrd = a tolerated TSan report class was seen;
    the model has no opinion: wildcard). *)
@@ -71,12 +72,24 @@ let compact acc n_nodes st =
   let thr = List.map (fun th -> { th with held = table n_nodes (fun i -> th.held (nat_of_int i)) }) st.thr in
   { st with mem = mem; thr = thr; trace = [] }
 
-let rnd (i : nat) = z_of_int (int_of_nat i + 12345)
+let default_rnd (i : nat) = z_of_int (int_of_nat i + 12345)
+
+(* scripted draws "v,v,xK,...": then the default source *)
+let rnd_of_script (s : string) : nat -> z =
+  let l = ref [] in
+  List.iter (fun tok ->
+      if String.length tok > 0 && tok.[0] = 'x' then begin
+        match !l with
+        | last :: _ -> for _ = 1 to int_of_string (String.sub tok 1 (String.length tok - 1)) do l := last :: !l done
+        | [] -> ()
+      end else l := int_of_string tok :: !l) (String.split_on_char ',' s);
+  let a = Array.of_list (List.rev !l) in
+  fun i -> let k = int_of_nat i in if k < Array.length a then z_of_int a.(k) else default_rnd i
 
 let all_done st ids = List.for_all (fun i -> thread_done (List.nth st.thr i)) ids
 
 (* round-robin over the given thread ids, one micro-step each, until all of them are done *)
-let run_rr ?(gens = [||]) acc n_nodes st ids =
+let run_rr ?(gens = [||]) ?(rnd = default_rnd) acc n_nodes st ids =
   let st = ref (refill gens st) in
   let steps = ref 0 and last = ref 0 in
   let sched = List.map nat_of_int ids in
@@ -113,13 +126,13 @@ let run_rc n k m mode l seed =
   let d = Array.fold_left (+) 0 acc.destroyed in
   Printf.sprintf "rc nodes=%d destroyed=%d early=%d lost=%d put1=%d volrd ?" m d !early !lost d
 
-let run_seed n r =
+let run_seed ?(rnd = default_rnd) n r =
   let hs k = List.init k (fun _ -> Hash) in
   let ths = List.init n (fun _ -> (hs (1 + r), (fun _ -> Z0))) @ [(hs 1, (fun _ -> Z0))] in
   let st = init_state (fun _ -> Z0) ths in
   let acc = { destroyed = [||]; hashes_rev = []; installs = 0; base = st.mem } in
-  let st = run_rr acc 0 st (List.init n (fun i -> i)) in
-  let _ = run_rr acc 0 st [n] in
+  let st = run_rr ~rnd acc 0 st (List.init n (fun i -> i)) in
+  let _ = run_rr ~rnd acc 0 st [n] in
   let hashes = List.rev acc.hashes_rev in            (* chronological (thread, value) *)
   let first t = List.assoc t hashes in
   let distinct = List.length (List.sort_uniq compare (List.map snd hashes)) in
@@ -146,6 +159,7 @@ let run line =
   | ["rc"; n; k; m; mode; l; seed] ->
     run_rc (int_of_string n) (int_of_string k) (int_of_string m) mode (int_of_string l) (int_of_string seed)
   | ["seed"; n; r; _key] -> run_seed (int_of_string n) (int_of_string r)
+  | ["seedx"; n; r; _key; dr] -> run_seed ~rnd:(rnd_of_script dr) (int_of_string n) (int_of_string r)
   | ["trees"; n; _size; _seed] -> run_trees (int_of_string n)
   | _ -> failwith "thr line"
 
